@@ -15,7 +15,8 @@ import (
 // propPkgs: packages (relative to the repository root) whose contract files carry obligations of a property.
 var propPkgs = map[string][]string{
 	"C12": {"pkg/convert"},
-	"C11": {"pkg/encoding"},
+	"C11": {"pkg/encoding", "pkg/encoding/vararray"},
+	"C08": {"pkg/filter", "pkg/encoding", "pkg/encoding/vararray"},
 	"C05": {"banyand/internal/snapshot"},
 	"C16": {"pkg/node", "pkg/partition", "pkg/convert"},
 	"C10": {"pkg/query/aggregation"},
